@@ -34,7 +34,7 @@ BOUNDSCHECK_TIERS = ("thorough",)
 
 def REQUIRED(tier):
     return ["unpack_checks", "pack_checks", "roundtrip_checks", "caller_buffer_checks", "canary_audits", "rejections_checked",
-            "default_order_file_roundtrips", "spot_checks_large"]
+            "default_order_file_roundtrips", "spot_checks_large", "spelling:alias"]
 
 
 def EXHAUSTIVE(tier):
@@ -73,6 +73,34 @@ def byte_of(fields, nbits: int, order: str) -> int:
     return b
 
 
+ALIASES = {"big": ("big", "b", "be", "big-endian"), "little": ("little", "l", "le", "little-endian")}
+
+
+def _spelling(order, k):
+    """Every accepted spelling of a bit order (the API goes by the first letter) must mean the same thing."""
+    a = ALIASES[order]
+    return a[k % len(a)]
+
+
+class _Keep:
+    """Results returned by earlier buffer-less calls must stay intact when later calls are made (no shared output arrays)."""
+
+    def __init__(self):
+        self.held = []
+
+    def check(self, ctx, case, what):
+        for arr, want in self.held:
+            if arr.tolist() != want:
+                ctx.violation(f"earlier-result-overwritten:{what}", "an array returned by an earlier call changed after a later call of the same size (shared output buffer)", case)
+                return False
+        return True
+
+    def hold(self, arr, want):
+        self.held.append((arr, list(want)))
+        if len(self.held) > 3:
+            self.held.pop(0)
+
+
 def _audit(ctx, frame, case, what):
     ctx.count("canary_audits")
     bad = frame.audit()
@@ -98,6 +126,7 @@ def run_case(case, ctx):
                 ctx.violation("unpack-empty", f"unpack of empty array returned size {out.size} dtype {out.dtype}", case)
             return
         base = rng.integers(0, 256, size=L).astype(np.uint8)
+        keep = _Keep()
         for p in range(L):
             for val in range(256):
                 ctx.evaluated()
@@ -106,9 +135,14 @@ def run_case(case, ctx):
                 want = [f for b in arr_py for f in fields_of(b, nbits, order)]
                 fr = Frame(rng)
                 arr = fr.like(np.array(arr_py, dtype=np.uint8), "in")
-                out = bits.unpack(arr, nbits, bitorder=order)
+                spell = _spelling(order, val)
+                out = bits.unpack(arr, nbits, bitorder=spell)
                 ctx.count("unpack_checks")
-                one = dict(case, pos=p, value=val)
+                ctx.count("spelling:" + ("canonical" if spell in ("big", "little") else "alias"))
+                one = dict(case, pos=p, value=val, spelling=spell)
+                if not keep.check(ctx, one, "unpack"):
+                    return
+                keep.hold(out, want)
                 if out.dtype != np.uint8 or out.tolist() != want:
                     ctx.violation(f"unpack-wrong:{nbits}bit:{order}", f"unpack byte {val:#04x} at pos {p}: got {out.tolist()[p*per:(p+1)*per]} want {want[p*per:(p+1)*per]}", one)
                     return
@@ -116,7 +150,7 @@ def run_case(case, ctx):
                     ctx.violation("oracle", "oracle bug", one)
                 # caller buffer, framed
                 buf = fr.alloc(L * per, np.uint8, "out", fill=0xEE)
-                out2 = bits.unpack(arr, nbits, buf, bitorder=order)
+                out2 = bits.unpack(arr, nbits, buf, bitorder=_spelling(order, val + 1))
                 ctx.count("caller_buffer_checks")
                 if out2.tolist() != want or buf.tolist() != want:
                     ctx.violation(f"unpack-buffer-differs:{nbits}bit:{order}", f"unpack into caller buffer differs at byte {val:#04x} pos {p}", one)
@@ -136,8 +170,9 @@ def run_case(case, ctx):
         per = 8 // nbits
         rng = np.random.default_rng([case["seed"], nbits, L, 7, order == "big"])
         base = rng.integers(0, 256, size=L).astype(np.uint8).tolist()
+        keep = _Keep()
         for p in range(L):
-            for tup in itertools.product(range(1 << nbits), repeat=per):
+            for ti, tup in enumerate(itertools.product(range(1 << nbits), repeat=per)):
                 ctx.evaluated()
                 fields = [f for b in base for f in fields_of(b, nbits, order)]
                 fields[p * per : (p + 1) * per] = list(tup)
@@ -145,14 +180,18 @@ def run_case(case, ctx):
                 want[p] = byte_of(tup, nbits, order)
                 fr = Frame(rng)
                 arr = fr.like(np.array(fields, dtype=np.uint8), "in")
-                out = bits.pack(arr, nbits, bitorder=order)
+                spell = _spelling(order, ti)
+                out = bits.pack(arr, nbits, bitorder=spell)
                 ctx.count("pack_checks")
-                one = dict(case, pos=p, fields=list(tup))
+                one = dict(case, pos=p, fields=list(tup), spelling=spell)
+                if not keep.check(ctx, one, "pack"):
+                    return
+                keep.hold(out, want)
                 if out.dtype != np.uint8 or out.tolist() != want:
                     ctx.violation(f"pack-wrong:{nbits}bit:{order}", f"pack fields {tup} at pos {p}: got {out.tolist()} want {want}", one)
                     return
                 buf = fr.alloc(L, np.uint8, "out", fill=0xEE)
-                out2 = bits.pack(arr, nbits, buf, bitorder=order)
+                out2 = bits.pack(arr, nbits, buf, bitorder=_spelling(order, ti + 2))
                 ctx.count("caller_buffer_checks")
                 if out2.tolist() != want or buf.tolist() != want:
                     ctx.violation(f"pack-buffer-differs:{nbits}bit:{order}", "pack into caller buffer differs", one)
@@ -176,8 +215,8 @@ def run_case(case, ctx):
             raw = rng.integers(0, 256, size=n).astype(np.uint8)
             want = sigfile.unpack_bits(raw, nbits, order)
             fr = Frame(rng)
-            out = bits.unpack(fr.like(raw), nbits, bitorder=order)
-            back = bits.pack(fr.like(want), nbits, bitorder=order)
+            out = bits.unpack(fr.like(raw), nbits, bitorder=_spelling(order, n))
+            back = bits.pack(fr.like(want), nbits, bitorder=_spelling(order, n + 1))
             ctx.count("spot_checks_large")
             if not np.array_equal(out, want) or not np.array_equal(back, raw):
                 ctx.violation(f"large-array:{nbits}bit:{order}", f"random {n}-byte array: unpack/pack differ from definition", dict(case, n=n))
